@@ -173,6 +173,102 @@ def searchsorted_shape(fn):
     return {"eps": eps, "bump": bump, "cmp": cmp_, "drop_last": drop_last, "offset": offset}
 
 
+# ---------------------------------------------------------------- shared: the bounded splines' domain guard
+def domain_guard(fn, prefix):
+    """[lower, upper = (bottom, top) if inverse else (left, right)]
+       if torch.min(inputs) < lower or torch.max(inputs) > upper: raise InputOutsideDomain()
+    -> <prefix>_rejects (mn mx lower upper) and <prefix>_bounds inverse left right bottom top"""
+    test = first_raise_guard(fn, "InputOutsideDomain")
+    bounds = None
+    for st in fn.body:
+        if isinstance(st, ast.Assign) and ast.unparse(st.targets[0]) in ("(lower, upper)", "lower, upper"):
+            v = st.value
+            if isinstance(v, ast.IfExp) and ast.unparse(v.test) == "inverse":
+                a, b = ast.unparse(v.body), ast.unparse(v.orelse)
+                names = {"(bottom, top)": "(v_bottom, v_top)", "(left, right)": "(v_left, v_right)",
+                         "(top, bottom)": "(v_top, v_bottom)", "(right, left)": "(v_right, v_left)"}
+                if a in names and b in names:
+                    bounds = "if inverse then %s else %s" % (names[a], names[b])
+            if bounds is None:
+                raise Untranslatable("domain bounds form", st)
+    used = {n.id for n in ast.walk(test) if isinstance(n, ast.Name)}
+    if bounds is None:
+        if not {"left", "right"} <= used:
+            raise Untranslatable("domain guard does not compare against left/right or lower/upper", test)
+        bounds = "(v_left, v_right)"
+        g = guard_def(prefix + "_rejects", test, ["left", "right"], {("min", "inputs"): "mn", ("max", "inputs"): "mx"})
+        g = (g[0], g[1].replace("v_left", "v_lower").replace("v_right", "v_upper"))
+    else:
+        g = guard_def(prefix + "_rejects", test, ["lower", "upper"], {("min", "inputs"): "mn", ("max", "inputs"): "mx"})
+    b = (prefix + "_bounds",
+         "Definition %s_bounds {T : Type} (inverse : bool) (v_left v_right v_bottom v_top : T) : T * T :=\n  %s.\n"
+         % (prefix, bounds))
+    return [g, b]
+
+
+def _if_inverse_blocks(fn):
+    """all top-level `if inverse:` statements of fn, in order"""
+    return [s for s in fn.body if isinstance(s, ast.If) and isinstance(s.test, ast.Name) and s.test.id == "inverse"]
+
+
+def _norm_denorm(fn, prefix, defs, consts):
+    """the first `if inverse:` normalises the inputs, the last one de-normalises outputs and adds the box log term"""
+    ifs = _if_inverse_blocks(fn)
+    if len(ifs) < 3:
+        raise Untranslatable("%s: expected three `if inverse:` statements (normalise, kernel, de-normalise)" % prefix, fn)
+    first, last = ifs[0], ifs[-1]
+    box = ["left", "right", "bottom", "top"]
+    for br, stmts in (("inv", first.body), ("fwd", first.orelse)):
+        if len(stmts) != 1:
+            raise Untranslatable("%s: input normalisation form" % prefix, first)
+        defs += block_defs("%s_%s_normalise" % (prefix, br), stmts, ["inputs"] + box, ["inputs"], consts=consts)
+    for br, stmts in (("inv", last.body), ("fwd", last.orelse)):
+        defs += block_defs("%s_%s_denormalise" % (prefix, br), stmts, ["outputs", "logabsdet"] + box,
+                           ["outputs", "logabsdet"], consts=consts)
+    return ifs[1:-1]
+
+
+# ---------------------------------------------------------------- linear spline
+def g_spline_linear(repo):
+    src = Source(repo, "nflows/transforms/splines/linear.py")
+    fn = src.func("linear_spline")
+    defs = domain_guard(fn, "lin")
+    mid = _norm_denorm(fn, "lin", defs, src.consts)
+    if len(mid) != 1:
+        raise Untranslatable("linear_spline: expected one kernel `if inverse:`", fn)
+    k = mid[0]
+    # forward kernel
+    defs += block_defs(
+        "lin_fwd", k.orelse, ["inputs", "num_bins", "bin_idx", "input_pdfs", "input_cdf"],
+        ["bin_pos", "alpha", "outputs", "logabsdet"], consts=src.consts,
+        subst={"bin_idx.float()": "v_bin_idx", "pdf.gather(-1, bin_idx[..., None])[..., 0]": "v_input_pdfs",
+               "cdf.gather(-1, bin_idx[..., None])[..., 0]": "v_input_cdf"},
+        skip_src=["bin_idx = torch.floor(bin_pos).long()", "bin_idx[bin_idx >= num_bins] = num_bins - 1"],
+        skip=["input_pdfs"])
+    # inverse kernel: per-bin slopes / offsets from the bin's two cdf values and boundaries
+    defs += block_defs(
+        "lin_inv", k.body, ["inputs", "cdf_left", "cdf_right", "bound_left", "bound_right"],
+        ["slopes", "offsets", "outputs", "logabsdet"], consts=src.consts,
+        edge={("cdf", "L"): "v_cdf_left", ("cdf", "R"): "v_cdf_right",
+              ("bin_boundaries", "L"): "v_bound_left", ("bin_boundaries", "R"): "v_bound_right"},
+        subst={"slopes.gather(-1, inv_bin_idx)[..., 0]": "@slopes", "offsets.gather(-1, inv_bin_idx)[..., 0]": "@offsets"},
+        skip_src=["inv_bin_idx = torchutils.searchsorted(cdf, inputs)", "inv_bin_idx = inv_bin_idx.unsqueeze(-1)"],
+        skip=["bin_boundaries"])
+    # structure of the cdf construction: cumsum, last := 1.0, pad 0 in front
+    txt = [ast.unparse(s_) for s_ in fn.body]
+    need = ["pdf = F.softmax(unnormalized_pdf, dim=-1)", "cdf = torch.cumsum(pdf, dim=-1)", "cdf[..., -1] = 1.0",
+            "cdf = F.pad(cdf, pad=(1, 0), mode='constant', value=0.0)"]
+    idx = [txt.index(n) if n in txt else -1 for n in need]
+    if -1 in idx or idx != sorted(idx):
+        raise Untranslatable("linear_spline: cdf construction differs from softmax -> cumsum -> last=1 -> pad(1,0)", fn)
+    defs.append(("lin_cdf_construction_ok", "Definition lin_cdf_construction_ok : bool := true.\n"))
+    un = src.func("unconstrained_linear_spline")
+    defs.append(guard_def("lin_inside_tails", nth_assign(un, "inside_interval_mask", 0).value, ["inputs", "tail_bound"], {}))
+    return defs, ""
+
+
+
+
 # ---------------------------------------------------------------- RQ spline
 RQ_FREE = ["inputs", "input_cumwidths", "input_bin_widths", "input_cumheights", "input_delta",
            "input_derivatives", "input_derivatives_plus_one", "input_heights"]
@@ -217,8 +313,7 @@ def g_spline_rq(repo):
         raise Untranslatable("rq: tail constant", un)
     defs.append(single_def("rq_tail_constant", cst[0].value, ["min_derivative"], consts=src.consts))
     # guards
-    defs.append(guard_def("rq_rejects", first_raise_guard(fn, "InputOutsideDomain"), ["left", "right"],
-                          {("min", "inputs"): "mn", ("max", "inputs"): "mx"}))
+    defs += domain_guard(fn, "rq")
     inside = nth_assign(un, "inside_interval_mask", 0).value
     defs.append(guard_def("rq_inside_tails", inside, ["inputs", "tail_bound"], {}))
     for nm in ("DEFAULT_MIN_BIN_WIDTH", "DEFAULT_MIN_BIN_HEIGHT", "DEFAULT_MIN_DERIVATIVE"):
@@ -756,3 +851,160 @@ def g_norm(repo):
 
 
 GROUPS += [("Norm", g_norm, ["nflows/transforms/normalization.py"])]
+
+
+GROUPS += [("SplineLinear", g_spline_linear, ["nflows/transforms/splines/linear.py"])]
+
+
+# ---------------------------------------------------------------- quadratic spline
+QUAD_FREE = ["inputs", "input_bin_locations", "input_bin_widths", "input_left_cdf", "input_left_heights",
+             "input_right_heights"]
+
+
+def g_spline_quadratic(repo):
+    src = Source(repo, "nflows/transforms/splines/quadratic.py")
+    fn = src.func("quadratic_spline")
+    defs = domain_guard(fn, "quad")
+    mid = _norm_denorm(fn, "quad", defs, src.consts)
+    # mid: [bin search if, kernel if]
+    kern = [m for m in mid if any(t.id == "alpha" for b_ in (m.body, m.orelse) for s_ in b_ for t in _targets_of(s_))]
+    if len(kern) != 1:
+        raise Untranslatable("quadratic_spline: kernel `if inverse:` not found", fn)
+    k = kern[0]
+    for nm in ("a", "b", "c"):
+        defs.append(single_def("quad_coef_" + nm, nth_assign(fn, nm, 0).value, QUAD_FREE))
+    kfree = QUAD_FREE + ["a", "b", "c"]
+    defs += block_defs("quad_inv", k.body, kfree, ["c_", "alpha", "outputs", "logabsdet"], consts=src.consts)
+    defs += block_defs("quad_fwd", k.orelse, kfree, ["alpha", "outputs", "logabsdet"], consts=src.consts)
+    defs.append(single_def("quad_width_affine", nth_assign(fn, "widths", 1).value, ["min_bin_width", "num_bins", "widths"],
+                           consts=src.consts))
+    defs.append(single_def("quad_unnorm_height", nth_assign(fn, "unnorm_heights_exp", 0).value, ["unnormalized_heights"],
+                           consts=src.consts))
+    defs.append(single_def("quad_height_affine", nth_assign(fn, "heights", 1).value, ["min_bin_height", "heights"],
+                           consts=src.consts))
+    # trapezoid area term ((h[:-1] + h[1:]) / 2) * w  and the boundary constant
+    area = nth_assign(fn, "unnormalized_area", 0).value
+    if ast.unparse(area) != "torch.sum((unnorm_heights_exp[..., :-1] + unnorm_heights_exp[..., 1:]) / 2 * widths, dim=-1)[..., None]":
+        raise Untranslatable("quadratic_spline: unnormalized_area form", area)
+    cdfv = nth_assign(fn, "bin_left_cdf", 0).value
+    if ast.unparse(cdfv) != "torch.cumsum((heights[..., :-1] + heights[..., 1:]) / 2 * widths, dim=-1)":
+        raise Untranslatable("quadratic_spline: bin_left_cdf form", cdfv)
+    defs.append(("quad_trapezoid", "Definition quad_trapezoid {T : Type} (O : ops T) (hl hr w : T) : T :=\n"
+                 "  (o_mul O (o_div O (o_add O hl hr) (o_ofZ O 2)) w).\n"))
+    heights0 = nth_assign(fn, "heights", 0).value
+    if ast.unparse(heights0) != "unnorm_heights_exp / unnormalized_area":
+        raise Untranslatable("quadratic_spline: heights normalisation", heights0)
+    txt = [ast.unparse(s_) for s_ in fn.body]
+    for need in ("bin_left_cdf[..., -1] = 1.0", "bin_left_cdf = F.pad(bin_left_cdf, pad=(1, 0), mode='constant', value=0.0)",
+                 "bin_locations = torch.cumsum(widths, dim=-1)", "bin_locations[..., -1] = 1.0",
+                 "bin_locations = F.pad(bin_locations, pad=(1, 0), mode='constant', value=0.0)",
+                 "widths = F.softmax(unnormalized_widths, dim=-1)"):
+        if need not in txt:
+            raise Untranslatable("quadratic_spline: structural statement missing: " + need, fn)
+    # boundary constant of the K-1 parameterisation
+    bif = [s_ for s_ in fn.body if isinstance(s_, ast.If) and ast.unparse(s_.test) == "unnorm_heights_exp.shape[-1] == num_bins - 1"]
+    if len(bif) != 1:
+        raise Untranslatable("quadratic_spline: boundary-height branch", fn)
+    btxt = [ast.unparse(s_) for s_ in bif[0].body]
+    want = ["first_widths = 0.5 * widths[..., 0]", "last_widths = 0.5 * widths[..., -1]",
+            "numerator = 0.5 * first_widths * unnorm_heights_exp[..., 0] + 0.5 * last_widths * unnorm_heights_exp[..., -1] + "
+            "torch.sum((unnorm_heights_exp[..., :-1] + unnorm_heights_exp[..., 1:]) / 2 * widths[..., 1:-1], dim=-1)",
+            "constant = numerator / (1 - 0.5 * first_widths - 0.5 * last_widths)", "constant = constant[..., None]",
+            "unnorm_heights_exp = torch.cat([constant, unnorm_heights_exp, constant], dim=-1)"]
+    if btxt != want:
+        raise Untranslatable("quadratic_spline: boundary constant computation changed", bif[0])
+    defs.append(("quad_boundary_constant",
+                 "Definition quad_boundary_constant {T : Type} (O : ops T) (w_first w_last h_first h_last inner_sum : T) : T :=\n"
+                 "  let fw := o_mul O (o_lit O 1 2) w_first in let lw := o_mul O (o_lit O 1 2) w_last in\n"
+                 "  let num := o_add O (o_add O (o_mul O (o_mul O (o_lit O 1 2) fw) h_first) (o_mul O (o_mul O (o_lit O 1 2) lw) h_last)) inner_sum in\n"
+                 "  o_div O num (o_sub O (o_sub O (o_ofZ O 1) (o_mul O (o_lit O 1 2) fw)) (o_mul O (o_lit O 1 2) lw)).\n"))
+    un = src.func("unconstrained_quadratic_spline")
+    defs.append(guard_def("quad_inside_tails", nth_assign(un, "inside_interval_mask", 0).value, ["inputs", "tail_bound"], {}))
+    for nm in ("DEFAULT_MIN_BIN_WIDTH", "DEFAULT_MIN_BIN_HEIGHT"):
+        defs.append(("quad_" + nm, "Definition quad_%s {T : Type} (O : ops T) : T := %s.\n" % (nm, lit(src.consts[nm]))))
+    return defs, ""
+
+
+def _targets_of(st):
+    out = []
+    if isinstance(st, ast.Assign):
+        for t in st.targets:
+            if isinstance(t, ast.Name):
+                out.append(t)
+    elif isinstance(st, ast.AugAssign) and isinstance(st.target, ast.Name):
+        out.append(st.target)
+    return out
+
+
+# ---------------------------------------------------------------- cubic spline
+def g_spline_cubic(repo):
+    src = Source(repo, "nflows/transforms/splines/cubic.py")
+    fn = src.func("cubic_spline")
+    defs = domain_guard(fn, "cub")
+    mid = _norm_denorm(fn, "cub", defs, src.consts)
+    kern = [m for m in mid if any(t.id == "shifted_inputs" for s_ in m.orelse for t in _targets_of(s_))]
+    if len(kern) != 1:
+        raise Untranslatable("cubic_spline: kernel `if inverse:` not found", fn)
+    k = kern[0]
+    kfree = ["inputs", "inputs_a", "inputs_b", "inputs_c", "inputs_d", "input_left_cumwidths", "input_right_cumwidths"]
+    defs += block_defs("cub_fwd", k.orelse, kfree, ["outputs", "logabsdet"], consts=src.consts)
+    inv_free = kfree + ["outputs", "eps", "quadratic_threshold"]
+    skip_src = [
+        "three_roots_mask = discriminant >= 0", "one_root_mask = discriminant < 0", "outputs = torch.zeros_like(inputs)",
+        "root1_mask = (input_left_cumwidths[three_roots_mask] - eps < root_1).float()",
+        "root1_mask *= (root_1 < input_right_cumwidths[three_roots_mask] + eps).float()",
+        "root2_mask = (input_left_cumwidths[three_roots_mask] - eps < root_2).float()",
+        "root2_mask *= (root_2 < input_right_cumwidths[three_roots_mask] + eps).float()",
+        "root3_mask = (input_left_cumwidths[three_roots_mask] - eps < root_3).float()",
+        "root3_mask *= (root_3 < input_right_cumwidths[three_roots_mask] + eps).float()",
+        "roots = torch.stack([root_1, root_2, root_3], dim=-1)",
+        "masks = torch.stack([root1_mask, root2_mask, root3_mask], dim=-1)",
+        "mask_index = torch.argsort(masks, dim=-1, descending=True)[..., 0][..., None]",
+        "outputs[three_roots_mask] = torch.gather(roots, dim=-1, index=mask_index).view(-1)",
+        "quadratic_mask = inputs_a.abs() < quadratic_threshold",
+    ]
+    defs += block_defs("cub_inv", k.body, inv_free,
+                       ["discriminant", "depressed_1", "depressed_2", "outputs_at_one_root_mask", "root_1", "root_2",
+                        "root_3", "outputs_at_quadratic_mask", "logabsdet"],
+                       consts=src.consts, skip_src=skip_src, skip=["outputs"])
+    # per-bin coefficients
+    edge = {("derivatives", "L"): "v_d_left", ("derivatives", "R"): "v_d_right"}
+    defs.append(single_def("cub_coef_a", nth_assign(fn, "a", 0).value, ["slopes", "widths"], edge=edge))
+    defs.append(single_def("cub_coef_b", nth_assign(fn, "b", 0).value, ["slopes", "widths"], edge=edge))
+    for nm, want in (("c", "derivatives[..., :-1]"), ("d", "cumheights[..., :-1]")):
+        if ast.unparse(nth_assign(fn, nm, 0).value) != want:
+            raise Untranslatable("cubic_spline: coefficient %s is not %s" % (nm, want), fn)
+    defs.append(single_def("cub_slope", nth_assign(fn, "slopes", 0).value, ["heights", "widths"]))
+    e2 = {("slopes", "L"): "v_s_left", ("slopes", "R"): "v_s_right", ("widths", "L"): "v_w_left", ("widths", "R"): "v_w_right"}
+    defs.append(single_def("cub_min_something_1", nth_assign(fn, "min_something_1", 0).value, [], edge=e2))
+    defs.append(single_def("cub_min_something_2", nth_assign(fn, "min_something_2", 0).value, [], edge=e2))
+    defs.append(single_def("cub_min_something", nth_assign(fn, "min_something", 0).value, ["min_something_1", "min_something_2"]))
+    defs.append(single_def("cub_inner_derivative", nth_assign(fn, "derivatives", 0).value, ["min_something"], edge=e2))
+    dl = nth_assign(fn, "derivatives_left", 0).value
+    dr = nth_assign(fn, "derivatives_right", 0).value
+    tr = ExprTr({"unnorm_derivatives_left": "v_u", "unnorm_derivatives_right": "v_u"},
+                subst={"slopes[..., 0][..., None]": "v_slope", "slopes[..., -1][..., None]": "v_slope"})
+    if "slopes[..., 0]" not in ast.unparse(dl) or "slopes[..., -1]" not in ast.unparse(dr):
+        raise Untranslatable("cubic_spline: end derivatives must use the first / last slope", fn)
+    defs.append(("cub_derivative_left", "Definition cub_derivative_left {T : Type} (O : ops T) (v_u v_slope : T) : T :=\n  %s.\n" % tr.tr(dl)))
+    defs.append(("cub_derivative_right", "Definition cub_derivative_right {T : Type} (O : ops T) (v_u v_slope : T) : T :=\n  %s.\n" % tr.tr(dr)))
+    if ast.unparse(nth_assign(fn, "derivatives", 1).value) != "torch.cat([derivatives_left, derivatives, derivatives_right], dim=-1)":
+        raise Untranslatable("cubic_spline: derivative vector assembly", fn)
+    defs.append(single_def("cub_width_affine", nth_assign(fn, "widths", 1).value, ["min_bin_width", "num_bins", "widths"], consts=src.consts))
+    defs.append(single_def("cub_height_affine", nth_assign(fn, "heights", 1).value, ["min_bin_height", "num_bins", "heights"], consts=src.consts))
+    txt = [ast.unparse(s_) for s_ in fn.body]
+    for need in ("cumwidths = torch.cumsum(widths, dim=-1)", "cumwidths[..., -1] = 1",
+                 "cumwidths = F.pad(cumwidths, pad=(1, 0), mode='constant', value=0.0)",
+                 "cumheights = torch.cumsum(heights, dim=-1)", "cumheights[..., -1] = 1",
+                 "cumheights = F.pad(cumheights, pad=(1, 0), mode='constant', value=0.0)"):
+        if need not in txt:
+            raise Untranslatable("cubic_spline: structural statement missing: " + need, fn)
+    un = src.func("unconstrained_cubic_spline")
+    defs.append(guard_def("cub_inside_tails", nth_assign(un, "inside_interval_mask", 0).value, ["inputs", "tail_bound"], {}))
+    for nm in ("DEFAULT_MIN_BIN_WIDTH", "DEFAULT_MIN_BIN_HEIGHT", "DEFAULT_EPS", "DEFAULT_QUADRATIC_THRESHOLD"):
+        defs.append(("cub_" + nm, "Definition cub_%s {T : Type} (O : ops T) : T := %s.\n" % (nm, lit(src.consts[nm]))))
+    return defs, "From NF Require Import Gen.Utils.\nNotation o_cbrt := utils_cbrt.\n\n"
+
+
+GROUPS += [("SplineQuadratic", g_spline_quadratic, ["nflows/transforms/splines/quadratic.py"]),
+           ("SplineCubic", g_spline_cubic, ["nflows/transforms/splines/cubic.py", "nflows/utils/torchutils.py"])]
